@@ -54,7 +54,16 @@ func resultLit(l Lit, m fnMatch, idx int, pos bool, recv ssa.Value) bool {
 		} else if len(args) > 0 {
 			rv = args[0]
 		}
-		if rv == nil || !dependsOn(rv, func(x ssa.Value) bool { return x == recv }) {
+		if rv == nil || !dependsOn(rv, func(x ssa.Value) bool {
+			if x == recv {
+				return true
+			}
+			// inside a helper: a parameter of the same type stands for the value
+			if n := namedOf(recv.Type()); n != nil && isParamOfType(x, n.Obj().Name()) {
+				return true
+			}
+			return false
+		}) {
 			return false
 		}
 	}
@@ -106,11 +115,11 @@ func c07guard(p *Prog, r *Report) {
 	qVerify := p.lift(func(l Lit) bool { return resultLit(l, verifyM, 0, true, event) }, 1)
 	qSelf := p.lift(func(l Lit) bool {
 		c, ok := errNilLit(l, cspM)
-		return ok && len(c.Call.Args) > 1 && dependsOn(c.Call.Args[1], func(x ssa.Value) bool { return x == event })
+		return ok && len(c.Call.Args) > 1 && depOnParamType(c.Call.Args[1], "Event")
 	}, 1)
 	qOther := p.lift(func(l Lit) bool {
 		c, ok := errNilLit(l, copM)
-		return ok && len(c.Call.Args) > 1 && dependsOn(c.Call.Args[1], func(x ssa.Value) bool { return x == event })
+		return ok && len(c.Call.Args) > 1 && depOnParamType(c.Call.Args[1], "Event")
 	}, 1)
 	names := []string{"Event.Verify()#0==true", "checkSelfParent(event)==nil", "checkOtherParent(event)==nil"}
 	preds := []Pred{qVerify, qSelf, qOther}
